@@ -9,6 +9,9 @@ func init() {
 			ruleAppTypeDefault(c, "C11.R1")
 			c.Rule("C11.R2", "list->release closure of app-type prefixes", 4)
 			rulePrefixRoundTrip(c, "C11.R2")
+			c.Rule("C11.R5", "one size per page window; every posted entry reaches the releaser", 2)
+			rulePageWindowOneSize(c, "C11.R5")
+			ruleEveryPostedEntryReleased(c, "C11.R5")
 			c.Rule("C11.R3", "single key codec", 5)
 			ruleKeyCodec(c, "C11.R3")
 		}})
